@@ -52,4 +52,12 @@ PROPS = {
                     "the documented host order (highest priority first) is refuted for the comparator as coded: known finding F-C12a",
                     "upload-session progress (chunked PATCH loop) is covered under C05"],
     },
+    "C19": {
+        "props": "Props/C19.v", "gen": ["sandbox"], "cli": ["regbot"],
+        "gen_theorems": ["C19_all_mutating_gated over Gen/SandboxFns.v"],
+        "trusted": ["translator extract/sandbox.go: methods of cmd/regbot/sandbox.Sandbox, the s.rc.<Method> calls in each, the classification of RegClient methods into state-changing / read-only (an unknown method makes the translator fail), and the top-level `if s.dryRun { ...; return }` gate preceding a call",
+                    "the model equates a script's effect with the sequence of API functions it calls (gopher-lua and control flow are not modelled)",
+                    "the real regbot binary, a loopback HTTP server backed by memreg, directory snapshots"],
+        "assumptions": COMMON_ASSUME + ["image.exportTar writes the tar file the script names; that is neither a registry nor an OCI layout and is not counted as a mutation"],
+    },
 }
